@@ -35,11 +35,20 @@ type Block struct {
 	// Pre is a keeper-level step executed at the start of the block on every node alike (what a passed
 	// governance proposal would do); part of the history.
 	Pre func(n *Node)
+	// Post makes the harness run the application's protorev post-handler after every transaction of the
+	// block (messages are delivered through the MsgServiceRouter, which bypasses the ante/post chain);
+	// its events are appended to the transaction's.
+	Post bool
 }
 
 type Script struct {
 	Name   string
 	Blocks []Block
+	// Validators is the number of genesis validators (0 = the default, 2).
+	Validators int
+	// Heavy marks a workload whose single execution is expensive (it compiles CosmWasm code): the
+	// map-order axis deviates it with whole-schedule rotations only.
+	Heavy bool
 }
 
 func acc(n string) string { return core.Acc(n).String() }
